@@ -133,8 +133,15 @@ def make_replay(chk, view, meth, argsyms, lib, ref, ranges=None, int_args=(), th
         coords = [a.p for a in argsyms if isinstance(a, T) and a.op == 'sym']
         steps = [('init', view.scalar, 'h', view.name)]
         envs = []
-        for i in range(4):
+        for i in range(5):
             env = rand_env(rng, names, coords, ranges)
+            if i < 2 and model:
+                # start from the solver's counterexample: its parameter values (point i=0: also its coordinates), the rest generic.
+                # Special parameter values (a coefficient that is exactly 0, two equal parameters) matter for guarded code paths.
+                for n in names + (coords if i == 0 else []):
+                    v_ = model.get(n)
+                    if v_ is not None and abs(v_) < 10 ** 6:
+                        env[n] = v_
             envs.append(env)
             for n in names:
                 steps.append(('set', view.scalar, n, env[n]))
